@@ -219,8 +219,49 @@ def r4_counts(ctx):
         ctx.check(ok, "C06.R4", f, f.node, f"{nm} = {fn}(y^2)", f"`{nm}` is no longer `{fn}` of the squared observations", construct=f"{nm} wiring")
 
 
+RAW_FIELDS = {"values", "timepoints"}
+RAW_EXCEPTIONS = {
+    ("leaspy.algo.personalize.scipy_minimize", "ScipyMinimizeAlgorithm.obj_with_jac"): "unreachable code after `raise NotImplementedError` (jacobian not implemented)",
+}
+
+
+def r5_raw_padded_tensors(ctx):
+    """`Dataset.values` / `Dataset.timepoints` are padded, zero-filled tensors: what lies under the mask is an implementation detail of the
+    loader (and a user may build a Dataset otherwise).  In the computation packages they may only be used as the *value* of a
+    WeightedTensor whose weight derives from the mask, or be tested against None / asked for their shape."""
+    ctx.rule("C06.R5", "raw padded tensors of a Dataset (values, timepoints) only enter computations as the value of a mask-weighted WeightedTensor", 3)
+    ix = ctx.ix
+    n = 0
+    for f in ix.iter_funcs():
+        if not f.mod.startswith(("leaspy.models", "leaspy.algo", "leaspy.samplers", "leaspy.variables", "leaspy.utils")):
+            continue
+        parents = {}
+        for p_ in ast.walk(f.node):
+            for ch in ast.iter_child_nodes(p_):
+                parents[ch] = p_
+        for a in ast.walk(f.node):
+            if not (isinstance(a, ast.Attribute) and a.attr in RAW_FIELDS and isinstance(a.value, ast.Name) and a.value.id in ("dataset", "data_set", "ds")):
+                continue
+            par = parents.get(a)
+            ok, why = False, ""
+            if isinstance(par, ast.Compare) and any(isinstance(c, ast.Constant) and c.value is None for c in par.comparators):
+                ok, why = True, "None test"
+            elif isinstance(par, ast.Attribute) and par.attr in ("shape", "dtype", "device", "ndim"):
+                ok, why = True, f".{par.attr}"
+            elif isinstance(par, ast.Call) and U(par.func) == "WeightedTensor" and par.args and par.args[0] is a:
+                w = par.args[1] if len(par.args) > 1 else kwarg(par, "weight")
+                ok = w is not None and ".mask" in U(w)
+                why = f"value of WeightedTensor(..., {U(w) if w is not None else 'no weight'})"
+            elif f.key in RAW_EXCEPTIONS:
+                ok, why = True, RAW_EXCEPTIONS[f.key]
+            n += 1
+            ctx.check(ok, "C06.R5", f, a, f"`{U(a)}`: {why}", f"`{U(par)[:70] if par is not None else U(a)}` uses the raw padded tensor `{U(a)}` outside a mask-weighted WeightedTensor: "
+                      "what is stored under the mask (fill value, padding) enters the result")
+
+
 def rules(ctx):
     r1_weighted_tensor(ctx)
+    r5_raw_padded_tensors(ctx)
     r2_roots(ctx)
     r3_provenance(ctx)
     r4_counts(ctx)
@@ -255,6 +296,7 @@ VARIANTS = [
         )""", "C06.R3"),
     V("count-model-entries", GAU, "\"n_obs\": LinkedVariable(\n                    Sqr(\"y\").then(wsum_dim_return_sum_of_weights_only)", "\"n_obs\": LinkedVariable(\n                    Sqr(\"model\").then(wsum_dim_return_sum_of_weights_only)", "C06.R4"),
     V("silent-mask-from-y", GAU, "s2 = sum_dim(WeightedTensor(model_x_model, y_x_model.weight))", "s2 = sum_dim(WeightedTensor(model_x_model, state[\"y\"].weight))", None),
+    V("init-from-unmasked-sum", "src/leaspy/models/logistic.py", "        values_mu, values_sigma = compute_patient_values_distribution(df)\n", "        values_mu, values_sigma = compute_patient_values_distribution(df)\n        values_mu = dataset.values.sum(dim=(0, 1)) / dataset.n_observations_per_ft\n", "C06.R5"),
     V("wsum-fill-only-when-nan", W, "        weighted_values = weight * self.filled(0)\n", "        vals = self.filled(0) if torch.isnan(self.value).any() else self.value\n        weighted_values = weight * vals\n", "C06.R1"),
     V("silent-rename-wsum-locals", "src/leaspy/utils/weighted_tensor/_weighted_tensor.py", "        weighted_values = weight * self.filled(0)\n        weighted_sum = weighted_values.sum(**kws)\n        sum_weights = weight.sum(**kws)\n        return weighted_sum.masked_fill(sum_weights == 0, fill_value), sum_weights",
       "        wv = weight * self.filled(0)\n        total = wv.sum(**kws)\n        n_w = weight.sum(**kws)\n        return total.masked_fill(n_w == 0, fill_value), n_w", None),
